@@ -456,6 +456,9 @@ tooled.inplace = inplace
 
 
 def _tooler(fn, captures):
+    if fn is None:
+        # Wildcard: the verification of the selector reports it
+        return fn
     if not hasattr(fn, "__code__"):
         raise TypeError(f"{fn} cannot be tooled")
 
